@@ -6,8 +6,9 @@ package main
 // tick really ran in); the model then replays all scenarios in one batch.
 //
 // Independent oracles on the implementation (r.Violation): c.next initialised by createCron; a tick runs a
-// job at most once, runs only present+enabled jobs, and runs exactly the jobs whose AST matches the minute
-// the spool was filled for — provided the tick happens in that minute, none otherwise; JobSchedule/Schedule
+// job at most once, runs only present+enabled jobs whose AST matches the minute it runs in (also when it runs
+// in another minute than the one it was armed for, and when an API call lands inside it), and runs exactly the
+// jobs whose AST matches when it runs in the minute the spool was filled for; JobSchedule/Schedule
 // list exactly the matching minutes of the window; AddJob rejects specs outside the grammar.
 
 import (
@@ -98,6 +99,19 @@ func c20K2(c *Ctx) {
 	}
 	tickDone := make(chan any, 16)
 	lib.VerifHandler = func(obj any, label string) {
+		if label == "cron:tick-drained" {
+			c20mid.mu.Lock()
+			fn := c20mid.fn
+			if obj != c20mid.obj {
+				fn = nil
+			} else {
+				c20mid.fn = nil
+			}
+			c20mid.mu.Unlock()
+			if fn != nil {
+				fn()
+			}
+		}
 		if label == "cron:tick-done" {
 			select {
 			case tickDone <- obj:
@@ -154,6 +168,13 @@ func c20K2(c *Ctx) {
 			k++
 		}
 	}
+}
+
+// a call to run inside the timer function of one cron object (set by doTick, taken by the cron:tick-drained hook)
+var c20mid struct {
+	mu  sync.Mutex
+	obj any
+	fn  func()
 }
 
 // goroutines alive when no cron object is active; a scenario starts, and a tick is complete, only when the count is back here
@@ -295,6 +316,181 @@ func c20scenario(c *Ctx, z *c20zones, tickDone chan any, idx int) (*c20scn, bool
 		}
 		return xs
 	}
+	addJob := func(name, zi int, spec cSpec, text string, valid bool) (string, string, string) {
+		err := func() (err error) {
+			defer func() {
+				if p := recover(); p != nil {
+					r.Violation("C20/parser-panic", fmt.Sprintf("AddJob panicked on spec %q: %v", text, p), map[string]interface{}{"spec": text})
+					err = fmt.Errorf("panic: %v", p)
+				}
+			}()
+			return cr.AddJob(gen.CronJob{Name: c20name(name), Spec: text, Location: z.loc[zi], Action: act})
+		}()
+		res := errName(err)
+		r.Count("k2.add." + res)
+		if !valid && err == nil {
+			r.Violation("C20/malformed-spec-accepted", fmt.Sprintf("AddJob accepted spec %q, which is outside the grammar", text), map[string]interface{}{"spec": text})
+		}
+		if valid && res == "errParse" {
+			r.Violation("C20/valid-spec-rejected", fmt.Sprintf("AddJob rejected spec %q: %v", text, err), map[string]interface{}{"spec": text})
+		}
+		if err == nil {
+			shadow[name] = &c20shadowJob{spec: spec, zi: zi, enabled: true}
+		}
+		return fmt.Sprintf("add %d %s %d", name, c20text(text), zi), res, fmt.Sprintf("AddJob(j%d, %q, %s)", name, text, c20zoneNames[zi])
+	}
+	freeName := func() int {
+		for n := 1; n <= 8; n++ {
+			if _, ok := shadow[n]; !ok {
+				return n
+			}
+		}
+		return 1 + rng.Intn(8)
+	}
+	// a call to place inside the timer function: AddJob aimed at c.next, or EnableJob
+	midCall := func() func() (string, string, string) {
+		if len(shadow) > 0 && rng.Chance(1, 3) {
+			var ns []int
+			for n := range shadow {
+				ns = append(ns, n)
+			}
+			sort.Ints(ns)
+			name := ns[rng.Intn(len(ns))]
+			return func() (string, string, string) {
+				err := cr.EnableJob(c20name(name))
+				if err == nil {
+					shadow[name].enabled = true
+				}
+				return fmt.Sprintf("enable %d", name), errName(err), fmt.Sprintf("EnableJob(j%d)", name)
+			}
+		}
+		zi := zis[rng.Intn(2)]
+		need(zi, next)
+		spec, text, valid := genSpec(zi)
+		name := freeName()
+		return func() (string, string, string) { return addJob(name, zi, spec, text, valid) }
+	}
+	// AddJob of a job whose spec denotes minute x (hour and minute fixed) in its zone
+	midAddFor := func(x time.Time) func() (string, string, string) {
+		zi := zis[rng.Intn(2)]
+		need(zi, x)
+		t := x.In(z.loc[zi])
+		var spec cSpec
+		for k := range spec.F {
+			spec.F[k] = cField{Star: true}
+		}
+		spec.F[0] = cField{Items: []cItem{{T: itNum, A: t.Minute()}}}
+		spec.F[1] = cField{Items: []cItem{{T: itNum, A: t.Hour()}}}
+		name := freeName()
+		return func() (string, string, string) { return addJob(name, zi, spec, spec.String(), true) }
+	}
+	// doTick runs the real timer function now; `mid`, if given, is executed on the timer's goroutine between the spool
+	// loop and c.schedule(next) (hook cron:tick-drained) — an API call landing inside the tick. false = inconclusive.
+	doTick := func(mid func() (string, string, string), backToNow bool) bool {
+		var midLine, midWant, midDescr string
+		// the real timer function, now
+		mu.Lock()
+		fired = fired[:0]
+		mu.Unlock()
+		for len(tickDone) > 0 {
+			<-tickDone
+		}
+		exp := expectSpool()
+		if mid != nil {
+			c20mid.mu.Lock()
+			c20mid.obj, c20mid.fn = vc.Obj(), func() { midLine, midWant, midDescr = mid() }
+			c20mid.mu.Unlock()
+		}
+		vc.TickNow()
+		// wait for the end of the timer function of this object (a stray run of an earlier object is ignored)
+		tmo := time.After(3 * time.Second)
+		for done := false; !done; {
+			select {
+			case o := <-tickDone:
+				done = o == vc.Obj()
+			case <-tmo:
+				return false
+			}
+		}
+		vc.Stop()
+		if !c20settle(3 * time.Second) {
+			return false
+		}
+		now := time.Now().Truncate(time.Minute)
+		if !now.Equal(startMinute) {
+			return false
+		}
+		mu.Lock()
+		got := append([]c20fire(nil), fired...)
+		mu.Unlock()
+		var names []int
+		seen := map[int]int{}
+		for _, f := range got {
+			n := c20nameNum(f.job)
+			names = append(names, n)
+			seen[n]++
+			if !f.atime.Equal(now) {
+				return false // minute changed inside the tick
+			}
+		}
+		timely := now.Equal(next)
+		if timely {
+			r.Count("k2.tick.in-the-scheduled-minute")
+		} else {
+			r.Count("k2.tick.other-minute")
+		}
+		if len(got) > 0 {
+			spooled = true
+			r.Count("k2.tick.fired-something")
+		}
+		ctx := map[string]interface{}{"ops": append([]string(nil), scn.descr...), "fired": names, "tick_minute": now.UTC().Format(time.RFC3339), "spooled_for": next.UTC().Format(time.RFC3339)}
+		for n := range seen {
+			// the property itself: a job runs only at minutes its spec denotes
+			if j, ok := shadow[n]; ok && !j.spec.matches(now.In(z.loc[j.zi])) {
+				r.Violation("C20/fired-at-non-matching-minute", fmt.Sprintf("job j%d (spec %q, %s) ran with action time %s, which its spec does not denote",
+					n, j.spec, c20zoneNames[j.zi], now.In(z.loc[j.zi]).Format("2006-01-02 15:04 Mon")), ctx)
+			}
+		}
+		for n, k := range seen {
+			if k > 1 {
+				r.Violation("C20/fired-twice", fmt.Sprintf("job j%d ran %d times in one tick", n, k), ctx)
+			}
+			if j, ok := shadow[n]; !ok || !j.enabled {
+				r.Violation("C20/fired-disabled-or-removed", fmt.Sprintf("job j%d ran although it is disabled or removed", n), ctx)
+			}
+		}
+		if timely {
+			want := sortedInts(exp)
+			var uniq []int
+			for n := range seen {
+				uniq = append(uniq, n)
+			}
+			if sortedInts(uniq) != want {
+				r.Violation("C20/tick-fires-wrong-set", fmt.Sprintf("tick at %s: jobs that are present, enabled and match this minute: [%s]; jobs run: [%s]",
+					now.UTC().Format(time.RFC3339), want, sortedInts(uniq)), ctx)
+			}
+		}
+		next = now.Add(time.Minute)
+		needAll(next)
+		if mid == nil {
+			scn.op(fmt.Sprintf("tick %d", c20min(now)), "fired "+sortedInts(names), "timer function at "+now.UTC().Format(time.RFC3339))
+		} else {
+			r.Count("k2.tick.with-call-inside")
+			scn.op(fmt.Sprintf("tickdrain %d", c20min(now)), "fired "+sortedInts(names), "timer function at "+now.UTC().Format(time.RFC3339)+", spool loop")
+			scn.op(midLine, midWant, "  inside the timer function: "+midDescr)
+			scn.op(fmt.Sprintf("ticksched %d", c20min(now)), "ok", "timer function, c.schedule(next)")
+		}
+		if backToNow && rng.Chance(7, 10) {
+			// back to the wall-clock minute, so that the following operations and the next tick meet a live spool
+			vc.Drain()
+			vc.ScheduleNext(startMinute)
+			next = startMinute
+			needAll(next)
+			scn.op("drain", "ok", "Drain()")
+			scn.op(fmt.Sprintf("sched %d", c20min(next)), "ok", fmt.Sprintf("c.schedule(%s)", next.UTC().Format(time.RFC3339)))
+		}
+		return true
+	}
 	nops := 12 + rng.Intn(28)
 	for i := 0; i < nops; i++ {
 		if !time.Now().Truncate(time.Minute).Equal(startMinute) {
@@ -314,7 +510,7 @@ func c20scenario(c *Ctx, z *c20zones, tickDone chan any, idx int) (*c20scn, bool
 		if rng.Chance(1, 40) {
 			name = 0
 		}
-		opk := rng.Intn(20)
+		opk := rng.Intn(22)
 		if opk <= 4 && rng.Chance(2, 3) {
 			// AddJob: mostly a free name
 			for n := 1; n <= 6; n++ {
@@ -383,90 +579,34 @@ func c20scenario(c *Ctx, z *c20zones, tickDone chan any, idx int) (*c20scn, bool
 			scn.op("drain", "ok", "Drain()")
 			scn.op(fmt.Sprintf("sched %d", c20min(t)), "ok", fmt.Sprintf("c.schedule(%s)", t.UTC().Format(time.RFC3339)))
 		case 14, 15, 16:
-			// the real timer function, now
-			mu.Lock()
-			fired = fired[:0]
-			mu.Unlock()
-			for len(tickDone) > 0 {
-				<-tickDone
-			}
-			exp := expectSpool()
-			vc.TickNow()
-			// wait for the end of the timer function of this object (a stray run of an earlier object is ignored)
-			tmo := time.After(3 * time.Second)
-			for done := false; !done; {
-				select {
-				case o := <-tickDone:
-					done = o == vc.Obj()
-				case <-tmo:
-					return nil, false
-				}
-			}
-			vc.Stop()
-			if !c20settle(3 * time.Second) {
+			if !doTick(nil, true) {
 				return nil, false
 			}
-			now := time.Now().Truncate(time.Minute)
-			if !now.Equal(startMinute) {
+		case 20:
+			// the timer function with an API call landing inside it
+			if !doTick(midCall(), true) {
 				return nil, false
 			}
-			mu.Lock()
-			got := append([]c20fire(nil), fired...)
-			mu.Unlock()
-			var names []int
-			seen := map[int]int{}
-			for _, f := range got {
-				n := c20nameNum(f.job)
-				names = append(names, n)
-				seen[n]++
-				if !f.atime.Equal(now) {
-					return nil, false // minute changed inside the tick
-				}
+		case 21:
+			// race probe: the spool is filled for a virtual minute X, the timer function runs (in the wall-clock minute R,
+			// so it runs nothing), and while it is between its spool loop and c.schedule a job matching X only is added;
+			// then c.next is moved to R (export, no drain — instead of waiting a minute) and the timer function runs again
+			x := base.Add(time.Duration(rng.Intn(120)) * time.Minute)
+			vc.Drain()
+			vc.ScheduleNext(x)
+			next = x
+			needAll(x)
+			scn.op("drain", "ok", "Drain()")
+			scn.op(fmt.Sprintf("sched %d", c20min(x)), "ok", fmt.Sprintf("c.schedule(%s)", x.UTC().Format(time.RFC3339)))
+			if !doTick(midAddFor(x), false) {
+				return nil, false
 			}
-			timely := now.Equal(next)
-			if timely {
-				r.Count("k2.tick.in-the-scheduled-minute")
-			} else {
-				r.Count("k2.tick.other-minute")
-			}
-			if len(got) > 0 {
-				spooled = true
-				r.Count("k2.tick.fired-something")
-			}
-			ctx := map[string]interface{}{"ops": append([]string(nil), scn.descr...), "fired": names, "tick_minute": now.UTC().Format(time.RFC3339), "spooled_for": next.UTC().Format(time.RFC3339)}
-			for n, k := range seen {
-				if k > 1 {
-					r.Violation("C20/fired-twice", fmt.Sprintf("job j%d ran %d times in one tick", n, k), ctx)
-				}
-				if j, ok := shadow[n]; !ok || !j.enabled {
-					r.Violation("C20/fired-disabled-or-removed", fmt.Sprintf("job j%d ran although it is disabled or removed", n), ctx)
-				}
-			}
-			if timely {
-				want := sortedInts(exp)
-				var uniq []int
-				for n := range seen {
-					uniq = append(uniq, n)
-				}
-				if sortedInts(uniq) != want {
-					r.Violation("C20/tick-fires-wrong-set", fmt.Sprintf("tick at %s: jobs that are present, enabled and match this minute: [%s]; jobs run: [%s]",
-						now.UTC().Format(time.RFC3339), want, sortedInts(uniq)), ctx)
-				}
-			} else if len(got) > 0 {
-				r.Violation(c20sigStale, fmt.Sprintf("the timer function ran at %s but the spool had been filled for %s; it ran [%s] with action time %s, a minute their specs were not checked against",
-					now.UTC().Format(time.RFC3339), next.UTC().Format(time.RFC3339), sortedInts(names), now.UTC().Format(time.RFC3339)), ctx)
-			}
-			next = now.Add(time.Minute)
+			vc.ScheduleNext(startMinute)
+			next = startMinute
 			needAll(next)
-			scn.op(fmt.Sprintf("tick %d", c20min(now)), "fired "+sortedInts(names), "timer function at "+now.UTC().Format(time.RFC3339))
-			if rng.Chance(7, 10) {
-				// back to the wall-clock minute, so that the following operations and the next tick meet a live spool
-				vc.Drain()
-				vc.ScheduleNext(startMinute)
-				next = startMinute
-				needAll(next)
-				scn.op("drain", "ok", "Drain()")
-				scn.op(fmt.Sprintf("sched %d", c20min(next)), "ok", fmt.Sprintf("c.schedule(%s)", next.UTC().Format(time.RFC3339)))
+			scn.op(fmt.Sprintf("sched %d", c20min(next)), "ok", fmt.Sprintf("c.schedule(%s) without draining", next.UTC().Format(time.RFC3339)))
+			if !doTick(nil, true) {
+				return nil, false
 			}
 		case 17:
 			info := cr.Info()
@@ -622,6 +762,3 @@ func c20scenario(c *Ctx, z *c20zones, tickDone chan any, idx int) (*c20scn, bool
 	}
 	return scn, true
 }
-
-// signature of the listed finding / repaired defect "timer function runs the spool of another minute"
-const c20sigStale = "C20/stale-spool-fired"
